@@ -337,9 +337,9 @@ def sel(N, b, dropped_index=0):
 
 class Prop:
     ID = "C10"
-    LEVEL = "exploration"
-    COQ_HEADER = ""
-    CHECK_FN = ""
+    LEVEL = "proof"
+    COQ_HEADER = "From TN Require Import Harness.H_C10.\nFrom Coq Require Import QArith.\nOpen Scope Q_scope.\n"
+    CHECK_FN = "check"
     RULE = ("tensors: enumerated format lattice ({TT,CP}x{U,no U} per mode) for N=1 (4), N=2 (16), N=3 (64, sampled in "
             "quick), seeded N=4; sizes 1..4 (size-1 modes included), ranks 1..3, zero tensors; marginals None / [None]*N / "
             "mixed / positive unnormalised / normalised / int64. Operations: 'extended' (the whole ANOVA tensor against "
@@ -360,7 +360,7 @@ class Prop:
                    "dependence cancels (e.g. only(weight_mask(4,[1,3]) ^ x0)) logic.relevant_symbols misjudges relevance "
                    "by rounding (norm ~1e-8 against a 1e-10 threshold) - a logic.py robustness defect outside this property",
                    "marginals are strictly positive torch vectors or None (as quantified)"]
-    THEOREMS = []
+    THEOREMS = ["C10_extended", "C10_undo", "C10_centred", "C10_reconstruct"]
 
     # ------------------------------------------------------------------ generation
     def generate(self, rng, tier):
@@ -641,4 +641,25 @@ class Prop:
                                       t["mkind"])
 
     def coq_term(self, case, res):
-        return None
+        from fractions import Fraction
+        if not res.get("ok") or case["op"] not in ("extended", "undo") or case.get("mask") is not None:
+            return None
+        tj = case["t"]; shape = tshape(tj)
+        marg = case["marginals"]
+        ws = []
+        for n, I in enumerate(shape):
+            m = None if marg is None else marg[n]
+            if m is None:
+                w = [Fraction(1, I)] * I
+            else:
+                mm = [Fraction(x).limit_denominator(10 ** 6) for x in m]
+                tot = sum(mm)
+                if tot == 0:
+                    return None
+                w = [x / tot for x in mm]
+            ws.append(coq_list(w, qlit, "Q"))
+        lit = lambda x: qlit(Fraction(x))
+        qd = lambda x: "(%d#%d)" % (round(x * 2 ** 40), 2 ** 40)
+        opn = "OExtended" if case["op"] == "extended" else "OUndo"
+        return "mkCase (%s %s [%s]) %s %s" % (opn, coq_tensor(tj, lit, "Q"), "; ".join(ws), coq_natlist(res["shape"]),
+                                              coq_list(res["dense"], qd, "Q"))
